@@ -51,7 +51,7 @@ Example C13_perl_ex2 : fst (perl_parse_ucd [97;123;49;125]) = Err (PerlError [12
 Proof. vm_compute. reflexivity. Qed.
 
 (* ---------------------------------------------------------------- python-brace ---------------- *)
-From I18n Require Import Generated.PyConsts Generated.PyFmtInfo Model.FmtPyBrace Spec.CPyFormat Proofs.FmtPyBrace Proofs.FmtPyBraceMarkup Proofs.FmtPyBraceGen.
+From I18n Require Import Generated.PyConsts Generated.PyFmtInfo Model.FmtPyBrace Spec.CPyFormat Proofs.FmtPyBrace Proofs.FmtPyBraceMarkup Proofs.FmtPyBraceSpec Proofs.FmtPyBraceGen.
 
 (* pybrace_parse_gen      : model of lib/strformat/pybrace.py with the generated tables (what is extracted and compared)
    cpy_markup_ok          : Spec/CPyFormat.v part A, the iterator behind string.Formatter().parse
@@ -67,23 +67,18 @@ Theorem C13_ucd_facts :
 Proof. exact ucd_facts. Qed.
 Print Assumptions C13_ucd_facts.
 
-(* D3: with str.isdigit() the parser raises ValueError on "{²}" ... *)
-Theorem C13_py_own_errors_refuted : pybrace_parse_gen [123; 178; 125] = Crash CValueError.
-Proof. vm_compute. reflexivity. Qed.
-Print Assumptions C13_py_own_errors_refuted.
-
-(* ... and with any digit test that accepts decimal characters only (the fix: isdecimal) it raises only its own errors *)
-Theorem C13_py_own_errors_guarded : forall U M, ucd_ok U -> digits_are_decimal U ->
-  forall s c, pybrace_parse U M s <> Crash c.
+(* the parser raises only its own errors (D3 fixed: the index test is name.isdecimal()), for every table set that
+   satisfies the side conditions ... *)
+Theorem C13_py_own_errors : forall U M, ucd_ok U -> forall s c, pybrace_parse U M s <> Crash c.
 Proof. exact pybrace_own_errors. Qed.
-Print Assumptions C13_py_own_errors_guarded.
+Print Assumptions C13_py_own_errors.
 
-(* the same for the generated tables with isdigit replaced by isdecimal *)
-Theorem C13_py_own_errors_generated_tables : forall s c, pybrace_parse gen_ucd_fixed gen_pybrace_ssize_max s <> Crash c.
+(* ... in particular for the tables of the running interpreter (the extracted instance) *)
+Theorem C13_py_own_errors_generated_tables : forall s c, pybrace_parse_gen s <> Crash c.
 Proof. exact own_errors_generated_tables. Qed.
 Print Assumptions C13_py_own_errors_generated_tables.
 
-(* D16: accepted, but Python's own parser rejects the string: "{:{a[}]}}" (a nested field whose index holds a brace) *)
+(* D25: accepted, but Python's own parser rejects the string: "{:{a[}]}}" (a nested field whose index holds a brace) *)
 Theorem C13_py_accept_implies_cpython_parses_refuted :
   exists sg, pybrace_parse_gen [123;58;123;97;91;125;93;125;125] = Ok sg /\ cpy_markup_ok [123;58;123;97;91;125;93;125;125] = false.
 Proof. eexists. split; vm_compute; reflexivity. Qed.
@@ -102,13 +97,18 @@ Theorem C13_py_accept_implies_cpython_parses_generated_tables : forall s sg,
 Proof. exact gen_accept_implies_markup. Qed.
 Print Assumptions C13_py_accept_implies_cpython_parses_generated_tables.
 
-(* a string rejected by Python's parser is rejected with the parser's own error (both guards: D16 and D3) *)
-Theorem C13_py_reject_if_cpython_rejects_guarded : forall U M, ucd_chars U -> ucd_ok U -> digits_are_decimal U -> forall s,
+(* a string rejected by Python's parser is rejected with the parser's own error (guard: D25 only) *)
+Theorem C13_py_reject_if_cpython_rejects : forall U M, ucd_chars U -> ucd_ok U -> forall s,
   cpy_markup_ok s = false -> nested_guard U (S (length s)) s = true -> exists e, pybrace_parse U M s = Err e.
 Proof. exact reject_if_markup_rejects. Qed.
-Print Assumptions C13_py_reject_if_cpython_rejects_guarded.
+Print Assumptions C13_py_reject_if_cpython_rejects.
 
-(* D15: accepted with type int, but str.format rejects every int: "{:,x}" and "{:+c}" *)
+Theorem C13_py_reject_if_cpython_rejects_generated_tables : forall s,
+  cpy_markup_ok s = false -> nested_guard gen_ucd (S (length s)) s = true -> exists e, pybrace_parse_gen s = Err e.
+Proof. exact gen_reject_if_markup_rejects. Qed.
+Print Assumptions C13_py_reject_if_cpython_rejects_generated_tables.
+
+(* D24: accepted with type int, but str.format rejects every int: "{:,x}" and "{:+c}" *)
 Theorem C13_py_flat_formats_refuted :
   pybrace_parse_gen [123;58;44;120;125]
     = Ok {| argument_map := [(KNum 0, ({| t_str := false; t_int := true; t_float := false |}, 1%nat))] |} /\
@@ -118,13 +118,30 @@ Theorem C13_py_flat_formats_refuted :
 Proof. split; [vm_compute; reflexivity|]. split; [intros z; reflexivity|]. split; [eexists; vm_compute; reflexivity|intros z; reflexivity]. Qed.
 Print Assumptions C13_py_flat_formats_refuted.
 
-(* D3 again: a string Python rejects ("{²}{": single "{") is not rejected with the parser's own error but crashes *)
-Theorem C13_py_reject_if_cpython_rejects_refuted :
-  cpy_markup_ok [123;178;125;123] = false /\ pybrace_parse_gen [123;178;125;123] = Crash CValueError.
-Proof. split; vm_compute; reflexivity. Qed.
-Print Assumptions C13_py_reject_if_cpython_rejects_refuted.
+(* ... and outside that defect the typing rules of Field.__init__ are sound for CPython's format(): if the parser gives a
+   brace-free format spec the type set tp, then a value of a type in tp (an int in range(0x110000), a float, a str) is
+   formatted by that spec (Spec/CPyFormat.v: parse_internal_render_format_spec + the per-type checks), unless the spec has
+   "," with b c o x X or a sign / "#" with c (spec_guard).  Proofs/FmtPyBraceSpec.v: CPython's spec parser is simulated by
+   the model's _format_spec_re scanner (parse_spec_sim), then every combination of type character, flags, alignment,
+   precision and value kind is checked.  This is the core of C13_py_flat_formats; the argument bookkeeping around it
+   (autonumbering, index / keyword lookup per field) is not proved. *)
+Theorem C13_py_spec_types_sound : forall U M, ucd_spec U M -> forall ftext tl tp v,
+  spec_types U M ftext tl = Ok tp -> forallb not_brace tl = true -> spec_guard U tl = true ->
+  val_in v tp = true -> format_value (u_decval U) v tl = FSuccess.
+Proof. exact spec_sound. Qed.
+Print Assumptions C13_py_spec_types_sound.
 
-(* non-vacuity: "{} {0!r:>5} {x:.2f}" is rejected (mixture); "{a} {:d} {!r:>5}" is accepted and formats *)
+Theorem C13_py_spec_types_sound_generated_tables : forall ftext tl tp v,
+  spec_types gen_ucd gen_pybrace_ssize_max ftext tl = Ok tp -> forallb not_brace tl = true -> spec_guard gen_ucd tl = true ->
+  val_in v tp = true -> format_value re_d_value v tl = FSuccess.
+Proof. exact gen_spec_sound. Qed.
+Print Assumptions C13_py_spec_types_sound_generated_tables.
+
+(* non-vacuity: "{²}" is a keyword field named "²" and "{٣}" is index 3, as for str.format; "{}{0}" is rejected (mixture);
+   "{a} {:d} {!r:>5}" is accepted and formats *)
+Example C13_py_ex0 : pybrace_parse_gen [123; 178; 125] = Ok {| argument_map := [(KName [178], (t_all, 1%nat))] |} /\
+  pybrace_parse_gen [123; 1635; 125] = Ok {| argument_map := [(KNum 3, (t_all, 1%nat))] |}.
+Proof. split; vm_compute; reflexivity. Qed.
 Example C13_py_ex1 : pybrace_parse_gen [123;125;32;123;48;125] = Err BNumberingMixture.
 Proof. vm_compute. reflexivity. Qed.
 Example C13_py_ex2 :
